@@ -96,3 +96,47 @@ Definition u1_block (l : list stmt) : bool := forallb u1_stmt l.
 (* the import events of a binding list: (line, import) of every binding made by an import statement *)
 Definition imp_events (l : list (name * bsrc)) : list (nat * import) :=
   flat_map (fun nb => match snd nb with BImp ln i => [(ln, i)] | BOther => [] end) l.
+
+(* ---------- stage 2: stage 1 + function and lambda scopes (no class, no comprehension) ----------
+   def with decorators, all parameter kinds, defaults, annotations, return annotation, nested defs, closures,
+   lambdas with defaults.  Still only the shapes a fully executed program runs completely. *)
+Fixpoint s2_expr (e : expr) : bool :=
+  match e with
+  | ELoad _ _ => true
+  | EOp es => (fix go (l : list expr) : bool := match l with [] => true | x :: r => s2_expr x && go r end) es
+  | EAttr e _ => s2_expr e
+  | ELambda ps ds body =>
+      forallb not_star ps &&
+      (fix go (l : list expr) : bool := match l with [] => true | x :: r => s2_expr x && go r end) ds &&
+      s2_expr body
+  | EComp _ _ => false
+  end.
+Definition s2_oexpr (o : option expr) : bool := match o with Some e => s2_expr e | None => true end.
+Definition s2_param (q : param) : bool := not_star (fst q) && s2_oexpr (snd q).
+Definition s2_oparam (o : option param) : bool := match o with Some q => s2_param q | None => true end.
+Definition s2_params (p : params) : bool :=
+  forallb s2_param (p_posonly p) && forallb s2_param (p_args p) && s2_oparam (p_vararg p) &&
+  forallb s2_param (p_kwonly p) && s2_oparam (p_kwarg p) &&
+  forallb s2_expr (p_defaults p) && forallb s2_oexpr (p_kw_defaults p).
+Definition s2_with_item (it : expr * option target) : bool :=
+  s2_expr (fst it) && match snd it with Some t => s1_target t | None => true end.
+
+Fixpoint s2_stmt (x : stmt) : bool :=
+  let blk := fix blk (l : list stmt) : bool := match l with [] => true | y :: r => s2_stmt y && blk r end in
+  match x with
+  | SExpr _ e => s2_expr e
+  | SAssign _ ts v => s2_expr v && forallb s1_target ts
+  | SAugAssign _ n attrs v => is_nil attrs && not_star n && s2_expr v
+  | SImport _ items => forallb s1_import_item items
+  | SImportFrom _ _ items => forallb s1_from_item items
+  | SDef _ nm decos ps ret body =>
+      not_star nm && forallb (fun d : nat * expr => s2_expr (snd d)) decos && s2_params ps && s2_oexpr ret && blk body
+  | SFor _ t it b o => s1_target t && s2_expr it && blk b && blk o
+  | SWhile _ t b o => s2_expr t && blk b && is_nil o
+  | SIf _ t b o => s2_expr t && blk b && is_nil o
+  | SWith _ items b => forallb s2_with_item items && blk b
+  | STry _ b hs o f => blk b && is_nil hs && blk o && blk f
+  | SPass _ => true
+  | SAllAssign _ _ | SClass _ _ _ _ _ _ | SDoc _ _ _ => false
+  end.
+Definition s2_block (l : list stmt) : bool := forallb s2_stmt l.
